@@ -84,6 +84,9 @@ Proof. exact part_eqt_TT. Qed.
 Theorem partition_eq_total : forall v, v_intv_guard v = true ->
   forall p q : part R, part_eqt v p q <> EE.
 Proof. exact part_eqt_noraise. Qed.
+Theorem partition_eq_implies_equal_hash : forall v, v_intv_guard v = true ->
+  forall p q : part R, part_eqt v p q = TT -> part_key p = part_key q.
+Proof. exact part_eq_key. Qed.
 Print Assumptions partition_eq_iff.
 
 (* ---------------------------------------------------------------- membership *)
